@@ -124,6 +124,25 @@ def apply_perturbation(resp, p):
         m = res.get("measures", {}).get(p[1])
         if m and isinstance(m.get("metadata"), dict):
             m["metadata"].pop("references", None)
+    elif kind == "floatify":  # same numbers, other numeric type (1 -> 1.0): a refreshed export
+        def fl(x):
+            if isinstance(x, bool):
+                return x
+            if isinstance(x, int):
+                return float(x)
+            if isinstance(x, list):
+                return [fl(y) for y in x]
+            return x
+
+        for dm in res["dimensions"]:
+            t = dm.get("type", {})
+            if t.get("class") == "enum" and t.get("subtype", {}).get("class") == "numeric":
+                for el in t.get("elements", []):
+                    if "value" in el:
+                        el["value"] = fl(el["value"])
+            for cat in t.get("categories", []) or []:
+                if isinstance(cat.get("numeric_value"), int) and not isinstance(cat.get("numeric_value"), bool):
+                    cat["numeric_value"] = float(cat["numeric_value"])
     elif kind == "dropref_all":  # no numeric measure carries references: default names apply
         for m in res.get("measures", {}).values():
             if isinstance(m, dict) and isinstance(m.get("metadata"), dict):
